@@ -27,7 +27,7 @@ static int stub_read(void* opaque, void* buffer, size_t n)
     __CPROVER_assert(n == 0 || __CPROVER_w_ok(buffer, n), "C20 load: read request stays inside the staging buffer");
     /* refills inside the parsing loop: the unread tail was just moved to the front of the staging buffer,
      * the new bytes must land right behind it (otherwise table entries are parsed out of phase) */
-    if (g_reads == 2) __CPROVER_assert(zstd_verif_ghost.memmove_calls >= 1 && buffer == (void*)((BYTE*)zstd_verif_ghost.memmove_last_dst + zstd_verif_ghost.memmove_last_len),
+    if (g_reads == 2) __CPROVER_assert(buffer == (void*)((BYTE*)zstd_verif_ghost.memmove_last_dst + zstd_verif_ghost.memmove_last_len),
                                        "C20 load: a refill appends directly behind the bytes carried over");
     /* deliver arbitrary file bytes: the first 16 are written explicitly (they are the ones parsed as
      * header/footer fields), the rest of the buffer is unconstrained already */
